@@ -16,7 +16,7 @@ must keep building when a proof breaks).
     - `return` occurs only in the region of the function body, and the long-double-ness of the
       returned value is that of the function's return type;
     - struct/union arguments of calls have at least one byte (outside: known finding
-      C20-empty-struct-arg); a call of the builtin `alloca` is not of type long double;
+      C20-empty-struct-arg); a call of the builtin `alloca` is not of type long double and neither is its argument;
     - the labels of the node are spelled `.…`.
 * `labelNames`, `labelsDistinct` — the labels a piece of code defines, and the decidable statement
   that they are pairwise distinct, distinct from the function's return label and not of the shape
@@ -70,6 +70,12 @@ def retOK (rl : Option Bool) (lhs : Node) : Bool :=
   | none => false
   | some ld => if isNull lhs then !ld else (isLD lhs.ty? == ld)
 
+/-- a call of the builtin `alloca`: its value is not a long double, and neither is its size argument -/
+def allocaOK (i : NInfo) (args : NodeList) : Bool :=
+  !isLD i.ty && (match args with
+    | .cons a _ => !isLD a.ty?
+    | .nil => true)
+
 mutual
 /-- value-producing expression in the scope of the label-height theorems -/
 def flowE : Node → Bool
@@ -79,7 +85,7 @@ def flowE : Node → Bool
   | .assign _ a b => flowA a && flowE b
   | .comma _ a b | .binop _ _ a b | .logand _ a b | .logor _ a b | .exch _ a b => flowE a && flowE b
   | .cond _ a b c | .cas _ a b c => flowE a && flowE b && flowE c
-  | .funcall i f _ _ args => flowE f && flowArgs args && structArgsOKb args && (notAlloca f || !isLD i.ty)
+  | .funcall i f _ _ args => flowE f && flowArgs args && structArgsOKb args && (notAlloca f || allocaOK i args)
   | .stmtExpr _ body => flowBody (defsSs body) body
   | _ => false
 /-- lvalue (`gen_addr`) in scope -/
@@ -90,7 +96,8 @@ def flowA : Node → Bool
   | .member _ a _ => flowA a
   | .assign _ a b => flowA a && flowE b
   | .cond _ a b c => flowE a && flowE b && flowE c
-  | .funcall i f _ _ args => flowE f && flowArgs args && structArgsOKb args && (notAlloca f || !isLD i.ty)
+  | .funcall i f _ _ args => flowE f && flowArgs args && structArgsOKb args && (notAlloca f || allocaOK i args)
+      && !isLD i.ty
   | _ => false
 def flowArgs : NodeList → Bool
   | .nil => true
